@@ -127,6 +127,89 @@ Proof.
   - apply filter_none. intros c Hc. apply in_map_iff in Hc. destruct Hc as (i & <- & _). reflexivity.
 Qed.
 
+(* ---- a release interrupted by a raising callback ------------------------------------------ *)
+Lemma ck_eqb_spec a b : ck_eqb a b = true <-> a = b.
+Proof. destruct a, b; cbn; split; congruence. Qed.
+
+Lemma cb_eqb_call k i e k' i' e' :
+  cb_eqb (call k i e) (call k' i' e') = ck_eqb k k' && (i =? i') && (e =? e').
+Proof. unfold cb_eqb, call. cbn. now rewrite andb_true_r. Qed.
+
+Lemma relay_call_shape x :
+  relay_call x = [] \/ exists k i e, x = QRelay k i e /\ relay_call x = [call k i e].
+Proof. destruct x as [[] i e|tok]; cbn; eauto 6. Qed.
+
+Lemma rtake1_glc k i e g : forall g', rtake1 k i e g = Some g' -> lc_kind k = true ->
+  remove1 cb_eqb (call k i e) (glc g) = Some (glc g').
+Proof.
+  induction g as [|x g IH]; intros g'; cbn [rtake1]; [discriminate|]. intros H K.
+  change (glc (x :: g)) with (relay_call x ++ glc g).
+  destruct (rmatch k i e x) eqn:M.
+  - injection H as <-. destruct x as [k' i' e'|tok]; [|discriminate]. cbn [rmatch] in M.
+    apply andb_true_iff in M. destruct M as [M M3]. apply andb_true_iff in M. destruct M as [M1 M2].
+    apply ck_eqb_spec in M1. apply Z.eqb_eq in M2, M3. subst k' i' e'.
+    assert (E : relay_call (QRelay k i e) = [call k i e]) by (destruct k; try reflexivity; discriminate).
+    rewrite E. cbn [app remove1]. rewrite (proj2 (cb_eqb_spec _ _) eq_refl). reflexivity.
+  - destruct (rtake1 k i e g) as [g0|]; [|discriminate]. injection H as <-.
+    change (glc (x :: g0)) with (relay_call x ++ glc g0).
+    destruct (relay_call_shape x) as [E|(k' & i' & e' & -> & E)]; rewrite E; cbn [app].
+    + now apply IH.
+    + cbn [remove1]. rewrite cb_eqb_call. cbn [rmatch] in M. rewrite M. now rewrite (IH g0 eq_refl K).
+Qed.
+
+Lemma rtake_glc k i e gs : forall gs', rtake k i e gs = Some gs' -> lc_kind k = true ->
+  otake (call k i e) (map glc gs) = Some (map glc gs').
+Proof.
+  induction gs as [|g gs IH]; intros gs'; cbn [rtake]; [discriminate|]. intros H K.
+  destruct g as [|x g].
+  - cbn [map otake]. change (glc []) with (@nil cb). now apply IH.
+  - destruct (rtake1 k i e (x :: g)) as [g'|] eqn:T; [|discriminate]. injection H as <-.
+    apply rtake1_glc in T; [|exact K]. cbn [map otake].
+    destruct (glc (x :: g)) as [|c l] eqn:G; [discriminate|]. now rewrite T.
+Qed.
+
+Lemma release_raise_sim log : forall q q', release_raise q log = Some q' ->
+  owed_raise (map glc q) log = Some (map glc q') /\ filter is_lc log = log.
+Proof.
+  induction log as [|c log IH]; intros q q'; cbn [release_raise]; [discriminate|].
+  destruct (lc_kind (c_k c) && c_w c) eqn:C; [|discriminate].
+  apply andb_true_iff in C. destruct C as [K W].
+  destruct (rtake (c_k c) (c_i c) (c_a c) q) as [q1|] eqn:T; [|discriminate].
+  apply rtake_glc in T; [|exact K].
+  assert (Ec : c = call (c_k c) (c_i c) (c_a c)) by (destruct c; cbn in *; now subst).
+  assert (L : is_lc c = true) by (unfold is_lc; destruct (c_k c); auto; discriminate).
+  rewrite <- Ec in T. cbn [owed_raise filter]. rewrite L, T.
+  destruct (raises (c_i c)).
+  - destruct log; [|discriminate]. intros [= <-]. auto.
+  - intros H. destruct (IH _ _ H) as [H1 H2]. rewrite H1, H2. auto.
+Qed.
+
+Lemma otake_perm c gs gs' : otake c gs = Some gs' -> Permutation (concat gs) (c :: concat gs').
+Proof.
+  revert gs'. induction gs as [|g gs IH]; intros gs'; cbn [otake]; [discriminate|].
+  destruct g as [|x g].
+  - intros H. cbn [concat app]. now apply IH.
+  - destruct (remove1 cb_eqb c (x :: g)) as [g'|] eqn:T; [|discriminate]. intros [= <-].
+    apply (remove1_perm cb_eqb cb_eqb_spec) in T. cbn [concat].
+    change (c :: g' ++ concat gs) with ((c :: g') ++ concat gs). now apply Permutation_app_tail.
+Qed.
+
+Lemma owed_raise_perm lc : forall gs gs', owed_raise gs lc = Some gs' ->
+  Permutation (concat gs) (lc ++ concat gs').
+Proof.
+  induction lc as [|c lc IH]; intros gs gs'; cbn [owed_raise]; [discriminate|].
+  destruct (otake c gs) as [g1|] eqn:T; [|discriminate]. apply otake_perm in T.
+  destruct (raises (c_i c)).
+  - destruct lc; [|discriminate]. intros [= <-]. exact T.
+  - intros H. eapply perm_trans; [exact T|]. cbn [app]. apply perm_skip. now apply IH.
+Qed.
+
+Lemma match_groups_single l g : Permutation l g -> match_groups l [g] = true.
+Proof.
+  intros P. cbn [match_groups]. assert (L := Permutation_length P).
+  rewrite <- L, firstn_all, skipn_all. cbn. rewrite andb_true_r. now apply cperm_complete.
+Qed.
+
 (* ---- the replicated event-handling blocks are one function of the event ---------- *)
 Definition emit (s : st) (cs : list cb) (k : ck) (i e : Z) : st * list cb :=
   if enabled s then (s, cs ++ [call k i e]) else (relay s k i e, cs).
@@ -652,8 +735,8 @@ Proof.
   - intros c [].
 Qed.
 
-Lemma known_create_facts p ss eid comps e :
-  known_step p ss (Create eid comps) = false ->
+Lemma known_create_facts p ss pt eid comps e :
+  known_step p ss pt (Create eid comps) = false ->
   (eid = Some e \/ (eid = None /\ towns (att ss) e = false)) ->
   NoDup (map (ty_of p) comps) /\
   (forall i, In i comps -> tget (att ss) e (ty_of p i) = None) /\
@@ -686,8 +769,8 @@ Proof.
   intros c [].
 Qed.
 
-Lemma fact_create p s ss eid comps ob s' :
-  R s ss -> Jt p s -> known_step p ss (Create eid comps) = false ->
+Lemma fact_create p s ss pt eid comps ob s' :
+  R s ss -> Jt p s -> known_step p ss pt (Create eid comps) = false ->
   step_op p s (Create eid comps) ob = Some s' ->
   Jt p s' /\ effect p s (events p ss (Create eid comps) ob) ob s'.
 Proof.
@@ -699,7 +782,7 @@ Proof.
      cperm_b (o_log ob) cs = true ->
      Jt p s1 /\ effect p s (map (fun i => EvAtt i e) comps) ob s1).
   { intros e E s1 cs F P. rewrite HE in E.
-    destruct (known_create_facts p ss eid comps e KN E) as (K1 & K2 & K3). rewrite <- HE in K2, K3.
+    destruct (known_create_facts p ss pt eid comps e KN E) as (K1 & K2 & K3). rewrite <- HE in K2, K3.
     split; [eapply create_Jt; eauto|].
     eapply cperm_effect; [|exact P]. apply create_fold_deff in F.
     eapply deff_dview; [|exact F]. reflexivity. }
@@ -751,8 +834,8 @@ Proof.
     + now apply effect_nil.
 Qed.
 
-Lemma fact_add p s ss e i ob s' :
-  R s ss -> Jt p s -> known_step p ss (Add e i) = false ->
+Lemma fact_add p s ss pt e i ob s' :
+  R s ss -> Jt p s -> known_step p ss pt (Add e i) = false ->
   step_op p s (Add e i) ob = Some s' ->
   Jt p s' /\ effect p s (events p ss (Add e i) ob) ob s'.
 Proof.
@@ -915,13 +998,13 @@ Proof.
     apply glc_to_relay. intros c Hc. eapply notifs_shape; eauto.
 Qed.
 
-Lemma op_lc p s ss ss' owed o ob s1 :
-  Inv p s ss owed -> known_step p ss o = false ->
+Lemma op_lc p s ss ss' owed pt o ob s1 :
+  Inv p s ss owed -> (en ss = true -> pt = false -> owed = []) -> known_step p ss pt o = false ->
   step_op p (open_group s) o ob = Some s1 -> step5 p ss o ob = Some ss' -> R s1 ss' ->
   exists owed', lc_check p ss owed o ob = Some owed' /\ Jt p s1 /\ map glc (queue s1) = owed' /\
     match o with Probe tok => negb (en ss) || probe_check p ss tok (o_log ob) | _ => true end = true.
 Proof.
-  intros (HR & J & Q) KN OP S5 HR1. set (s0 := open_group s) in *.
+  intros (HR & J & Q) OE KN OP S5 HR1. set (s0 := open_group s) in *.
   assert (HR0 : R s0 ss) by (eapply R_core; [apply core_open_group|exact HR]).
   assert (EN0 : enabled s0 = en ss).
   { rewrite <- (R_en _ _ HR). unfold s0, open_group. destruct (enabled s) eqn:E; cbn; congruence. }
@@ -949,13 +1032,14 @@ Proof.
     destruct (en ss); eexists; (split; [reflexivity|split; [exact JZ|]]); [exact Q|].
     rewrite map_app, Q. reflexivity. }
   destruct o as [eid comps|e i|e ty|e imm| | |v|tok|]; unfold lc_check.
-  - destruct (fact_create _ _ _ _ _ _ _ HR0 J0 KN OP) as [J1 EF]. eapply G; eauto.
-  - destruct (fact_add _ _ _ _ _ _ _ HR0 J0 KN OP) as [J1 EF]. eapply G; eauto.
+  - destruct (fact_create _ _ _ _ _ _ _ _ HR0 J0 KN OP) as [J1 EF]. eapply G; eauto.
+  - destruct (fact_add _ _ _ _ _ _ _ _ HR0 J0 KN OP) as [J1 EF]. eapply G; eauto.
   - destruct (fact_remove _ _ _ _ _ _ _ HR0 J0 OP) as [J1 EF]. eapply G; eauto.
   - destruct (fact_delete _ _ _ _ _ _ _ HR0 J0 OP) as [J1 EF]. destruct imm; eapply G; eauto.
   - destruct (fact_process _ _ _ _ _ HR0 J0 OP) as [J1 EF]. eapply G; eauto.
-  - (* Clear: only while enabled *)
-    cbn [known_step] in KN. apply negb_false_iff in KN. rewrite KN in *.
+  - (* Clear: only while enabled and with nothing postponed *)
+    cbn [known_step] in KN. apply orb_false_iff in KN. destruct KN as [KN KP].
+    apply negb_false_iff in KN. rewrite (OE KN KP). rewrite KN in *.
     cbn [step_op] in OP.
     destruct (delete_all p (s0, []) (akeys (ents s0))) as [[s2 cs]|] eqn:DA; [|discriminate].
     destruct (o_exc ob =? 0); [|discriminate]. cbn [andb] in OP.
@@ -966,23 +1050,33 @@ Proof.
     rewrite N. apply cperm_sound, (Permutation_filter is_lc) in P.
     rewrite (filter_all is_lc cs) in P.
     2:{ intros c Hc. subst cs. apply lc_shape_is_lc. eapply notifs_shape; eauto. }
-    rewrite (cperm_complete _ _ P). exists []. split; [reflexivity|]. split; [|split; reflexivity].
+    cbn [app]. rewrite (match_groups_single _ _ P). exists []. split; [reflexivity|].
+    split; [|split; reflexivity].
     assert (E0 : ents s2 = []).
     { assert (X := R_ents _ _ HR1). cbn [ents] in X. rewrite X. apply step5_qs in S5. destruct S5 as [S5 _]. cbn in S5. now injection S5 as <-. }
     apply (Jt_view p init); [exact E0|reflexivity|reflexivity|reflexivity|apply Jt_init].
   - (* SetEnabled *)
     cbn [step_op] in OP. destruct v.
-    + destruct (o_exc ob =? 0); [|discriminate]. cbn [andb] in OP.
-      destruct (match_groups _ _) eqn:MG; [|discriminate]. injection OP as <-.
-      apply (match_groups_filter is_lc) in MG. rewrite map_map in MG.
-      rewrite (map_ext _ glc) in MG.
-      2:{ intros g. apply deliver_lc. cbn. apply (J_selfl _ _ J0). }
-      cbn [queue set_enabled] in MG. rewrite Q0 in MG.
-      assert (N : notifs p ss (SetEnabled true) ob = []) by reflexivity. rewrite N.
-      replace (if en ss then owed else owed ++ [[]]) with (map glc (if en ss then queue s else queue s ++ [[]])).
-      2:{ destruct (en ss); [exact Q|]. rewrite map_app, Q. reflexivity. }
-      rewrite MG. exists []. split; [reflexivity|]. split; [|split; reflexivity].
-      eapply Jt_view; [| | | |exact J0]; reflexivity.
+    + assert (N : notifs p ss (SetEnabled true) ob = []) by reflexivity. rewrite N.
+      assert (QW : map glc (queue s0) = (if en ss then owed else owed ++ [[]])).
+      { rewrite Q0. destruct (en ss); [exact Q|]. rewrite map_app, Q. reflexivity. }
+      destruct (o_exc ob =? 3).
+      * (* a postponed callback raised: the rest stays in the queue / owed *)
+        destruct (selfl _); [|discriminate].
+        destruct (release_raise _ _) as [q'|] eqn:RR; [|discriminate]. injection OP as <-.
+        cbn [queue set_enabled] in RR. apply release_raise_sim in RR. destruct RR as [RR FL].
+        rewrite FL, <- QW, RR. exists (map glc q'). split; [reflexivity|].
+        split; [|split; reflexivity].
+        eapply Jt_view; [| | | |exact J0]; reflexivity.
+      * destruct (o_exc ob =? 0); [|discriminate]. cbn [andb] in OP.
+        destruct (match_groups _ _) eqn:MG; [|discriminate]. cbn [andb] in OP.
+        destruct (forallb _ (o_log ob)); [|discriminate]. injection OP as <-.
+        apply (match_groups_filter is_lc) in MG. rewrite map_map in MG.
+        rewrite (map_ext _ glc) in MG.
+        2:{ intros g. apply deliver_lc. cbn. apply (J_selfl _ _ J0). }
+        cbn [queue set_enabled] in MG. rewrite QW in MG.
+        rewrite MG. exists []. split; [reflexivity|]. split; [|split; reflexivity].
+        eapply Jt_view; [| | | |exact J0]; reflexivity.
     + destruct (o_exc ob =? 0); [|discriminate]. cbn [andb] in OP.
       destruct (nil_b (o_log ob)) eqn:L; [|discriminate]. injection OP as <-. apply nil_b_true in L.
       destruct (Z (set_enabled s0 false)) as (ow & A & B & C); try reflexivity; [now rewrite L|].
@@ -1019,94 +1113,6 @@ Proof.
     destruct (nil_b (o_log ob)) eqn:L; [|discriminate]. injection OP as <-. apply nil_b_true in L.
     destruct (Z (set_procs s0 true)) as (ow & A & B & C); try reflexivity; [now rewrite L|].
     exists ow. auto.
-Qed.
-
-Lemma step2_sim p s ss owed o ob s' :
-  Inv p s ss owed -> known_step p ss o = false -> step p s o ob = Some s' ->
-  exists ss' owed', step2 p (ss, owed) o ob = Some (ss', owed') /\
-                    step5 p ss o ob = Some ss' /\ Inv p s' ss' owed'.
-Proof.
-  intros I KN ST. assert (I' := I). destruct I' as (HR & J & Q).
-  destruct (step_sim _ _ _ _ _ _ HR ST) as (ss' & S5 & HR').
-  unfold step in ST. destruct (step_op p (open_group s) o ob) as [s1|] eqn:OP; [|discriminate].
-  destruct (forallb (qcheck s1) (o_qs ob)) eqn:QS; [|discriminate]. injection ST as <-.
-  destruct (op_lc _ _ _ _ _ _ _ _ I KN OP S5 HR') as (ow & LC & J1 & Q1 & PC).
-  exists ss', ow. unfold step2. rewrite S5, LC.
-  assert (QC : forallb (qcheck2 p ss') (o_qs ob) = true).
-  { apply forallb_forall. intros q Hq. eapply qcheck2_sim; eauto.
-    eapply forallb_forall in QS; eauto. }
-  rewrite QC, PC. cbn [andb]. split; [reflexivity|]. split; [reflexivity|].
-  split; [exact HR'|split; [exact J1|exact Q1]].
-Qed.
-
-Lemma run2_sim p tr : forall s ss owed s',
-  Inv p s ss owed -> known_from p ss tr = false -> run p s tr = Some s' ->
-  exists sw, run2 p (ss, owed) tr = Some sw.
-Proof.
-  induction tr as [|[o ob] tr IH]; intros s ss owed s' I KN; cbn [run run2 known_from] in *.
-  - eauto.
-  - apply orb_false_iff in KN. destruct KN as [K1 K2].
-    destruct (step p s o ob) as [s1|] eqn:E; [|discriminate]. intros H.
-    destruct (step2_sim _ _ _ _ _ _ _ I K1 E) as (ss1 & ow & -> & S5 & I1).
-    rewrite S5 in K2. eapply IH; eauto.
-Qed.
-
-Lemma Inv_init p : Inv p init s5_init [].
-Proof. split; [apply R_init|split; [apply Jt_init|reflexivity]]. Qed.
-
-Theorem accepts_holds2 c : known_b c = false -> accepts c = true -> holds c.
-Proof.
-  unfold known_b, accepts, holds, holds_b. intros KN.
-  destruct (run (c_p c) init (c_tr c)) as [s'|] eqn:E; [|discriminate]. intros _.
-  destruct (run2_sim _ _ _ _ _ _ (Inv_init (c_p c)) KN E) as [sw ->]. reflexivity.
-Qed.
-
-(* ---- what the property machine says on raw observations ---------------------------------------------- *)
-(* a release log is the owed groups one after the other, each up to order *)
-Lemma match_groups_chunks gs : forall l, match_groups l gs = true ->
-  exists chunks, l = concat chunks /\ Forall2 (@Permutation cb) chunks gs.
-Proof.
-  induction gs as [|g gs IH]; intros l; cbn [match_groups].
-  - destruct l; [|discriminate]. exists []. split; [reflexivity|constructor].
-  - intros H. apply andb_true_iff in H. destruct H as [H1 H2]. apply cperm_sound in H1.
-    destruct (IH _ H2) as (ch & E & F). exists (firstn (length g) l :: ch). split.
-    + cbn [concat]. rewrite <- E. symmetry. apply firstn_skipn.
-    + now constructor.
-Qed.
-Lemma chunks_perm (chunks gs : list (list cb)) :
-  Forall2 (@Permutation cb) chunks gs -> Permutation (concat chunks) (concat gs).
-Proof. induction 1; cbn [concat]; [constructor|now apply Permutation_app]. Qed.
-
-Lemma lc_check_conserves p s owed o ob owed' :
-  lc_check p s owed o ob = Some owed' -> (en s = true -> owed = []) ->
-  Permutation (concat owed ++ notifs p s o ob) (filter is_lc (o_log ob) ++ concat owed').
-Proof.
-  intros H I.
-  assert (G : (if en s then (if cperm_b (filter is_lc (o_log ob)) (notifs p s o ob) then Some owed else None)
-               else (if nil_b (filter is_lc (o_log ob)) then Some (owed ++ [notifs p s o ob]) else None))
-              = Some owed' ->
-              Permutation (concat owed ++ notifs p s o ob) (filter is_lc (o_log ob) ++ concat owed')).
-  { destruct (en s).
-    - destruct (cperm_b _ _) eqn:P; [|discriminate]. intros [= <-]. apply cperm_sound in P.
-      rewrite (I eq_refl). cbn [concat app]. rewrite app_nil_r. now apply Permutation_sym.
-    - destruct (nil_b _) eqn:L; [|discriminate]. intros [= <-]. apply nil_b_true in L. rewrite L.
-      cbn [app]. rewrite concat_app. cbn [concat]. now rewrite app_nil_r. }
-  assert (M : forall gs, match_groups (filter is_lc (o_log ob)) gs = true ->
-              Permutation (concat gs) (filter is_lc (o_log ob) ++ concat [])).
-  { intros gs MG. apply match_groups_chunks in MG. destruct MG as (ch & -> & F).
-    cbn [concat]. rewrite app_nil_r. apply Permutation_sym. now apply chunks_perm. }
-  unfold lc_check in H. destruct o as [eid comps|e i|e ty|e imm| | |v|tok|]; try (now apply G).
-  - (* Clear *)
-    destruct (en s) eqn:EN.
-    + destruct (cperm_b _ _) eqn:P; [|discriminate]. injection H as <-. apply cperm_sound in P.
-      rewrite (I eq_refl). cbn [concat app]. rewrite app_nil_r. now apply Permutation_sym.
-    + destruct (match_groups _ _) eqn:MG; [|discriminate]. injection H as <-.
-      apply M in MG. rewrite concat_app in MG. cbn [concat] in MG. now rewrite app_nil_r in MG.
-  - destruct v; [|now apply G].
-    destruct (match_groups _ _) eqn:MG; [|discriminate]. injection H as <-. apply M in MG.
-    assert (N : notifs p s (SetEnabled true) ob = []) by reflexivity. rewrite N in *.
-    destruct (en s); [rewrite app_nil_r; exact MG|].
-    rewrite concat_app in MG. cbn [concat app] in MG. exact MG.
 Qed.
 
 (* dispatching state after an operation, read off the operation *)
@@ -1146,6 +1152,113 @@ Proof.
   split; [reflexivity|]. split; [reflexivity|]. now apply forallb_forall.
 Qed.
 
+Lemma owed_inv p s owed pt o ob s' owed' :
+  step5 p s o ob = Some s' -> lc_check p s owed o ob = Some owed' ->
+  (en s = true -> pt = false -> owed = []) ->
+  (en s' = true -> partial_next pt o ob = false -> owed' = []).
+Proof.
+  intros S5 LC I. rewrite (en_step5 _ _ _ _ _ S5). unfold lc_check in LC. unfold partial_next.
+  destruct o as [eid comps|e i|e ty|e imm| | |v|tok|];
+    try (intros EN PT; rewrite EN in LC; destruct (cperm_b _ _); [|discriminate];
+         injection LC as <-; now apply I).
+  - intros _ _. destruct (match_groups _ _); [|discriminate]. now injection LC as <-.
+  - destruct v; [|discriminate]. intros _ X. apply negb_false_iff, Z.eqb_eq in X. rewrite X in LC.
+    cbn in LC. destruct (match_groups _ _); [|discriminate]. now injection LC as <-.
+Qed.
+
+Lemma step2_sim p s ss owed pt o ob s' :
+  Inv p s ss owed -> (en ss = true -> pt = false -> owed = []) ->
+  known_step p ss pt o = false -> step p s o ob = Some s' ->
+  exists ss' owed', step2 p (ss, owed) o ob = Some (ss', owed') /\
+                    step5 p ss o ob = Some ss' /\ Inv p s' ss' owed' /\
+                    (en ss' = true -> partial_next pt o ob = false -> owed' = []).
+Proof.
+  intros I OE KN ST. assert (I' := I). destruct I' as (HR & J & Q).
+  destruct (step_sim _ _ _ _ _ _ HR ST) as (ss' & S5 & HR').
+  unfold step in ST. destruct (step_op p (open_group s) o ob) as [s1|] eqn:OP; [|discriminate].
+  destruct (forallb (qcheck s1) (o_qs ob)) eqn:QS; [|discriminate]. injection ST as <-.
+  destruct (op_lc _ _ _ _ _ _ _ _ _ I OE KN OP S5 HR') as (ow & LC & J1 & Q1 & PC).
+  exists ss', ow. unfold step2. rewrite S5, LC.
+  assert (QC : forallb (qcheck2 p ss') (o_qs ob) = true).
+  { apply forallb_forall. intros q Hq. eapply qcheck2_sim; eauto.
+    eapply forallb_forall in QS; eauto. }
+  rewrite QC, PC. cbn [andb]. split; [reflexivity|]. split; [reflexivity|].
+  split; [split; [exact HR'|split; [exact J1|exact Q1]]|].
+  eapply owed_inv; eauto.
+Qed.
+
+Lemma run2_sim p tr : forall s ss owed pt s',
+  Inv p s ss owed -> (en ss = true -> pt = false -> owed = []) ->
+  known_from p ss pt tr = false -> run p s tr = Some s' ->
+  exists sw, run2 p (ss, owed) tr = Some sw.
+Proof.
+  induction tr as [|[o ob] tr IH]; intros s ss owed pt s' I OE KN; cbn [run run2 known_from] in *.
+  - eauto.
+  - apply orb_false_iff in KN. destruct KN as [K1 K2].
+    destruct (step p s o ob) as [s1|] eqn:E; [|discriminate]. intros H.
+    destruct (step2_sim _ _ _ _ _ _ _ _ I OE K1 E) as (ss1 & ow & -> & S5 & I1 & OE1).
+    rewrite S5 in K2. eapply IH; eauto.
+Qed.
+
+Lemma Inv_init p : Inv p init s5_init [].
+Proof. split; [apply R_init|split; [apply Jt_init|reflexivity]]. Qed.
+
+Theorem accepts_holds2 c : known_b c = false -> accepts c = true -> holds c.
+Proof.
+  unfold known_b, accepts, holds, holds_b. intros KN.
+  destruct (run (c_p c) init (c_tr c)) as [s'|] eqn:E; [|discriminate]. intros _.
+  destruct (run2_sim _ _ _ _ _ _ _ (Inv_init (c_p c)) (fun _ _ => eq_refl) KN E) as [sw ->].
+  reflexivity.
+Qed.
+
+(* ---- what the property machine says on raw observations ---------------------------------------------- *)
+(* a release log is the owed groups one after the other, each up to order *)
+Lemma match_groups_chunks gs : forall l, match_groups l gs = true ->
+  exists chunks, l = concat chunks /\ Forall2 (@Permutation cb) chunks gs.
+Proof.
+  induction gs as [|g gs IH]; intros l; cbn [match_groups].
+  - destruct l; [|discriminate]. exists []. split; [reflexivity|constructor].
+  - intros H. apply andb_true_iff in H. destruct H as [H1 H2]. apply cperm_sound in H1.
+    destruct (IH _ H2) as (ch & E & F). exists (firstn (length g) l :: ch). split.
+    + cbn [concat]. rewrite <- E. symmetry. apply firstn_skipn.
+    + now constructor.
+Qed.
+Lemma chunks_perm (chunks gs : list (list cb)) :
+  Forall2 (@Permutation cb) chunks gs -> Permutation (concat chunks) (concat gs).
+Proof. induction 1; cbn [concat]; [constructor|now apply Permutation_app]. Qed.
+
+Lemma lc_check_conserves p s owed o ob owed' :
+  lc_check p s owed o ob = Some owed' ->
+  Permutation (concat owed ++ notifs p s o ob) (filter is_lc (o_log ob) ++ concat owed').
+Proof.
+  intros H.
+  assert (G : (if en s then (if cperm_b (filter is_lc (o_log ob)) (notifs p s o ob) then Some owed else None)
+               else (if nil_b (filter is_lc (o_log ob)) then Some (owed ++ [notifs p s o ob]) else None))
+              = Some owed' ->
+              Permutation (concat owed ++ notifs p s o ob) (filter is_lc (o_log ob) ++ concat owed')).
+  { destruct (en s).
+    - destruct (cperm_b _ _) eqn:P; [|discriminate]. intros [= <-]. apply cperm_sound in P.
+      eapply perm_trans; [apply Permutation_app_comm|]. apply Permutation_app_tail. now apply Permutation_sym.
+    - destruct (nil_b _) eqn:L; [|discriminate]. intros [= <-]. apply nil_b_true in L. rewrite L.
+      cbn [app]. rewrite concat_app. cbn [concat]. now rewrite app_nil_r. }
+  assert (M : forall gs, match_groups (filter is_lc (o_log ob)) gs = true ->
+              Permutation (concat gs) (filter is_lc (o_log ob) ++ concat [])).
+  { intros gs MG. apply match_groups_chunks in MG. destruct MG as (ch & -> & F).
+    cbn [concat]. rewrite app_nil_r. apply Permutation_sym. now apply chunks_perm. }
+  unfold lc_check in H. destruct o as [eid comps|e i|e ty|e imm| | |v|tok|]; try (now apply G).
+  - (* Clear *)
+    destruct (match_groups _ _) eqn:MG; [|discriminate]. injection H as <-.
+    apply M in MG. rewrite concat_app in MG. cbn [concat] in MG. now rewrite app_nil_r in MG.
+  - destruct v; [|now apply G].
+    assert (N : notifs p s (SetEnabled true) ob = []) by reflexivity. rewrite N in *.
+    assert (C : concat (if en s then owed else owed ++ [[]]) = concat owed ++ []).
+    { destruct (en s); [now rewrite app_nil_r|]. rewrite concat_app. reflexivity. }
+    destruct (o_exc ob =? 3).
+    + apply owed_raise_perm in H. now rewrite C in H.
+    + destruct (match_groups _ _) eqn:MG; [|discriminate]. injection H as <-. apply M in MG.
+      now rewrite C in MG.
+Qed.
+
 (* all events of a history / all lifecycle calls observed in it *)
 Fixpoint total_notifs (p : params) (s : s5) (tr : trace) : list cb :=
   match tr with
@@ -1158,24 +1271,14 @@ Definition total_calls (tr : trace) : list cb := flat_map (fun oo => filter is_l
 (* exactly once, nothing lost: what the events of a history owe = what was
    called + what is still postponed *)
 Lemma conservation p tr : forall s owed s' owed',
-  run2 p (s, owed) tr = Some (s', owed') -> (en s = true -> owed = []) ->
-  Permutation (concat owed ++ total_notifs p s tr) (total_calls tr ++ concat owed')
-  /\ (en s' = true -> owed' = []).
+  run2 p (s, owed) tr = Some (s', owed') ->
+  Permutation (concat owed ++ total_notifs p s tr) (total_calls tr ++ concat owed').
 Proof.
   induction tr as [|[o ob] tr IH]; intros s owed s' owed'; cbn [run2 total_notifs total_calls flat_map].
-  - intros [= <- <-] I. split; [|exact I]. rewrite app_nil_r. apply Permutation_refl.
-  - destruct (step2 p (s, owed) o ob) as [[s1 ow]|] eqn:E; [|discriminate]. intros H I.
+  - intros [= <- <-]. rewrite app_nil_r. apply Permutation_refl.
+  - destruct (step2 p (s, owed) o ob) as [[s1 ow]|] eqn:E; [|discriminate]. intros H.
     apply step2_parts in E. destruct E as (S5 & LC & _). rewrite S5.
-    assert (I1 : en s1 = true -> ow = []).
-    { rewrite (en_step5 _ _ _ _ _ S5). unfold lc_check in LC.
-      destruct o as [eid comps|e i|e ty|e imm| | |v|tok|];
-        try (intros EN; rewrite EN in LC; destruct (cperm_b _ _); [|discriminate];
-             injection LC as <-; now apply I).
-      - intros _. destruct (if en s then _ else _); [|discriminate]. now injection LC as <-.
-      - destruct v; [|discriminate]. intros _. destruct (match_groups _ _); [|discriminate].
-        now injection LC as <-. }
-    destruct (IH _ _ _ _ H I1) as [P I2]. split; [|exact I2].
-    apply lc_check_conserves in LC; [|exact I]. cbn [snd].
+    specialize (IH _ _ _ _ H). apply lc_check_conserves in LC. cbn [snd].
     rewrite app_assoc. eapply perm_trans; [apply Permutation_app_tail; exact LC|].
     rewrite <- !app_assoc. now apply Permutation_app_head.
 Qed.
@@ -1183,11 +1286,12 @@ Qed.
 (* a release delivers the postponed calls operation after operation *)
 Lemma release_in_order p s owed ob s' owed' :
   step2 p (s, owed) (SetEnabled true) ob = Some (s', owed') -> en s = false ->
+  (o_exc ob =? 3) = false ->
   owed' = [] /\ exists chunks, filter is_lc (o_log ob) = concat chunks /\
                 Forall2 (@Permutation cb) chunks (owed ++ [[]]).
 Proof.
-  intros H EN. apply step2_parts in H. destruct H as (_ & LC & _). unfold lc_check in LC.
-  rewrite EN in LC. destruct (match_groups _ _) eqn:MG; [|discriminate]. injection LC as <-.
+  intros H EN X. apply step2_parts in H. destruct H as (_ & LC & _). unfold lc_check in LC.
+  rewrite EN, X in LC. destruct (match_groups _ _) eqn:MG; [|discriminate]. injection LC as <-.
   split; [reflexivity|]. now apply match_groups_chunks.
 Qed.
 
@@ -1219,4 +1323,17 @@ Lemma registered_iff_attached p s owed o ob s' owed' i r :
 Proof.
   intros H I. apply step2_parts in H. destruct H as (_ & _ & Q). specialize (Q _ I).
   cbn [qcheck2] in Q. apply eqb_prop in Q. rewrite Q, andb_true_iff, attached_b_spec. tauto.
+Qed.
+
+(* a release interrupted by a raising callback: what was called, one call after
+   the other from the oldest operation that is still owed something, ends with
+   the raising call; everything else is still owed *)
+Lemma release_interrupted p s owed ob s' owed' :
+  step2 p (s, owed) (SetEnabled true) ob = Some (s', owed') -> (o_exc ob =? 3) = true ->
+  owed_raise (if en s then owed else owed ++ [[]]) (filter is_lc (o_log ob)) = Some owed' /\
+  Permutation (concat owed) (filter is_lc (o_log ob) ++ concat owed').
+Proof.
+  intros H X. apply step2_parts in H. destruct H as (_ & LC & _). assert (LC' := LC).
+  unfold lc_check in LC. rewrite X in LC. split; [exact LC|].
+  apply lc_check_conserves in LC'. now rewrite app_nil_r in LC'.
 Qed.
